@@ -4,30 +4,185 @@ import json as _json
 
 def _c14_case(c):
     p = c.split(" ")
-    if p[0] in ("A", "R", "F"):
+    if p[0] in ("A", "R", "F", "T"):
         return {"kind": "A", "line": c}
     if p[0] == "M":
         # M <n> <events...>: re-run the schedule on the real Merge
         return {"kind": "M", "case": {"n": int(p[1]), "script": p[2:], "seed": 1}}
+    if p[0] == "X" and p[-1].startswith("J"):
+        # projected line of an end-to-end run: the last token is the whole case with its schedule
+        return {"kind": "E", "case": _json.loads(bytes.fromhex(p[-1][1:]).decode("utf-8"))}
     if p[0] == "K":
         return {"kind": "M", "case": {"caps": [ch == "1" for ch in p[1]]}}
     return {"raw": c}
 
 
+# ---------------------------------------------------------------------------
+# Thorough tier: a sample of the correspondence cases is re-evaluated INSIDE Coq with
+# vm_compute and compared with what the extracted OCaml runner printed (model.txt).
+# This cross-checks the extraction and the OCaml driver, not the implementation.
+
+_VM_PRELUDE = """From Oras Require Import Base.Prelude Model.Referrers Model.Merge.
+Definition batches (log : list obs) : list (nat * list nat) :=
+  flat_map (fun o => match o with OBatch m ms => [(m, ms)] | _ => [] end) log.
+Definition puts (log : list obs) : list (list N) :=
+  flat_map (fun o => match o with OPut _ nw => [map dkey nw] | _ => [] end) log.
+"""
+
+
+def _vm_lst(xs, ty):
+    return "(@nil %s)" % ty if not xs else "[" + "; ".join(xs) + "]"
+
+
+def _vm_desc(t):
+    k, a, p = t.split(":")
+    return "(mkDesc %s %s %s)" % (k, a, p)
+
+
+def _vm_descs(tok):
+    return _vm_lst([] if tok == "-" else [_vm_desc(t) for t in tok.split(",")], "desc")
+
+
+def _vm_changes(tok):
+    return _vm_lst([] if tok == "-" else [("Add " if t[0] == "+" else "Remove ") + _vm_desc(t[1:]) for t in tok.split(",")], "change")
+
+
+def _vm_vis(evs):
+    out = []
+    for e in evs:
+        if e[0] == "J":
+            continue
+        if e[0] == "G":
+            out.append("VG %s%%nat" % e[1:])
+        else:
+            t, f = e[1:].split(":")
+            out.append("V%s %s%%nat %s" % (e[0], t, "true" if f == "1" else "false"))
+    return _vm_lst(out, "vis")
+
+
+def _vm_results(tok):
+    m = {"ok": "Some ROk", "idxdel": "Some RIdxDel", "err": "Some RErr", "pending": "None"}
+    return _vm_lst([m[x.split("=")[1]] for x in tok.split(",")], "(option result)")
+
+
+def _vm_nats(tok):
+    return _vm_lst([] if tok in ("-", "") else ["%s%%nat" % x for x in tok.split(",")], "nat")
+
+
+def _vm_ns(tok):
+    return _vm_lst([] if tok in ("-", "") else tok.split(","), "N")
+
+
+def _vm_goal(case, out):
+    p = case.split(" ")
+    o = out.split(" ")
+    try:
+        if p[0] == "A":
+            rhs = "NoUpdate" if o[0] == "NOUPDATE" else "Updated " + _vm_descs(o[1])
+            return "apply_changes %s %s = %s" % (_vm_descs(p[1]), _vm_changes(p[2]), rhs)
+        if p[0] == "R":
+            return "remove_empty %s %s%%nat = %s" % (_vm_descs(p[2]), p[1], _vm_descs(o[1]))
+        if p[0] == "F":
+            return "filter_referrers %s %s = %s" % (_vm_descs(p[2]), p[1], _vm_descs(o[1]))
+        if p[0] == "T":
+            ds = ["(mkSubj %s %s %s)" % (x.split(":")[1], x.split(":")[0], x.split(":")[2]) for x in p[1].split(",")]
+            return "tag_classes %s = %s" % (_vm_lst(ds, "subject"), _vm_nats(o[1]))
+        if p[0] == "K":
+            caps = {"0": "CapUnknown", "1": "CapSupported", "2": "CapUnsupported"}
+            exp = ["(%s, %s)" % (caps[x.split("/")[0]], "true" if x.split("/")[1] == "1" else "false") for x in o[1].split(",")]
+            return "set_caps CapUnknown %s = %s" % (_vm_lst(["true" if b == "1" else "false" for b in p[1]], "bool"), _vm_lst(exp, "(cap * bool)"))
+        if p[0] == "D":
+            kind = {"artifact": "KArtifact", "index": "KIndex"}.get(p[1], "KImage")
+            return "referrer_art %s %s %s = %s" % (kind, p[2], p[3], o[1])
+        if p[0] == "M":
+            n = int(p[1])
+            changes = _vm_lst(["Add (mkDesc %d 0 0)" % (t + 1) for t in range(n)], "change")
+            call = "vis_summary false None %s %s" % (changes, _vm_vis(p[2:]))
+            if o[0] == "REJECT":
+                return call + " = None"
+            # ACC B <b> R <r> I <i>
+            b = [] if o[2] == "-" else ["(%s%%nat, %s)" % (x.split(":")[0], _vm_nats(x.split(":")[1])) for x in o[2].split(";")]
+            return ("match %s with Some (rs, _, log) => (rs, batches log) = (%s, %s) | None => False end"
+                    % (call, _vm_results(o[4]), _vm_lst(b, "(nat * list nat)")))
+        if p[0] == "X":
+            r0 = "None" if p[2] == "none" else "(Some %s)" % _vm_lst([] if p[2] == "-" else ["(mkDesc %s 0 0)" % k for k in p[2].split(",")], "desc")
+            call = "vis_summary %s %s %s %s" % ("true" if p[1] == "1" else "false", r0, _vm_changes(p[3]), _vm_vis(p[4:]))
+            if o[0] == "REJECT":
+                return call + " = None"
+            # ACC R <r> I <i> U <u>
+            idx = "None" if o[4] == "none" else "(Some %s)" % _vm_ns(o[4])
+            us = [] if o[6] == "-" else [_vm_ns("" if x == "e" else x) for x in o[6].split(";")]
+            return ("match %s with Some (rs, idx, log) => (rs, idx, puts log) = (%s, %s, %s) | None => False end"
+                    % (call, _vm_results(o[2]), idx, _vm_lst(us, "(list N)")))
+    except Exception:
+        return None
+    return None
+
+
+def _c14_vm_sample(d, tier, coq, build, want=300):
+    import os, subprocess, collections
+    if tier != "thorough":
+        return []
+    outs = {}
+    with open(os.path.join(d, "model.txt")) as f:
+        for l in f:
+            i, _, o = l.rstrip("\n").partition(" ")
+            outs[i] = o
+    quota = {"A": 90, "R": 20, "F": 20, "T": 20, "K": 10, "D": 20, "M": 70, "X": 70}
+    total = collections.Counter()
+    with open(os.path.join(d, "cases.txt")) as f:
+        for l in f:
+            c = l.split(" ", 2)
+            if len(c) > 1:
+                total[c[1]] += 1
+    got, stride, goals = collections.Counter(), collections.Counter(), []
+    with open(os.path.join(d, "cases.txt")) as f:
+        for l in f:
+            i, _, c = l.rstrip("\n").partition(" ")
+            k = c.split(" ", 1)[0]
+            if k not in quota or got[k] >= quota[k] or i not in outs:
+                continue
+            stride[k] += 1
+            if (stride[k] - 1) % max(1, total[k] // quota[k]) != 0:
+                continue
+            g = _vm_goal(c, outs[i])
+            if g:
+                got[k] += 1
+                goals.append((i, g))
+    vdir = os.path.join(build, "vm")
+    os.makedirs(vdir, exist_ok=True)
+    vf = os.path.join(vdir, "C14_cases.v")
+    with open(vf, "w") as f:
+        f.write(_VM_PRELUDE)
+        for i, g in goals:
+            f.write("\n(* %s *)\nGoal %s.\nProof. vm_compute. reflexivity. Qed.\n" % (i, g))
+    p = subprocess.run(["coqc", "-R", coq, "Oras", "-w", "-notation-overridden", vf], cwd=vdir, timeout=1500,
+                       stdout=subprocess.PIPE, stderr=subprocess.STDOUT, text=True)
+    with open(os.path.join(d, "vm_sample.txt"), "w") as f:
+        f.write("%d goals %s rc=%d\n%s" % (len(goals), dict(got), p.returncode, p.stdout[-3000:]))
+    if p.returncode != 0:
+        return ["vm_compute re-evaluation of %d sampled cases inside Coq disagrees with the extracted runner (or does not type-check): %s"
+                % (len(goals), p.stdout[-1200:])]
+    if len(goals) < want // 2:
+        return ["vm_compute sample too small: %d goals" % len(goals)]
+    return []
+
+
 CONFIG = {
     "properties_file": "Properties/C14.v",
-    "proof_files": ["Base/Prelude.v", "Proofs/Referrers.v", "Proofs/Merge.v", "Proofs/MergeLin.v", "Proofs/MergeThm.v"],
-    "model_files": ["Generated/GC14.v", "Model/Referrers.v", "Model/Merge.v"],
+    "proof_files": ["Base/Prelude.v", "Proofs/Referrers.v", "Proofs/Merge.v", "Proofs/MergeLin.v", "Proofs/MergeThm.v", "Proofs/Delivery.v"],
+    "model_files": ["Generated/GC14.v", "Model/Referrers.v", "Model/Merge.v", "Model/Delivery.v"],
     "extract": "XC14.v",
     "ml_main": "c14_main.ml",
     "harness": "c14",
     "harness_test": True,
     "case_to_replay": _c14_case,
+    "post_model": _c14_vm_sample,
     "timeout_quick": 900,
     "timeout_thorough": 3000,
     "assumptions": [
         "a descriptor is abstracted to its key (descriptor.FromOCI: media type x digest x size, interned injectively by the harness, 0 = all-zero), its artifact type and the rest of its payload; changes name non-zero descriptors (pushWithIndexing/deleteWithIndexing only index the three manifest media types) - hypothesis changes_nonempty / guard of EGet",
-        "Merge: the delivery of a batch result to its members (close of the status channel / len(items)-1 buffered sends, received later by each waiter) is one step EComplete of the transition system; which waiter receives the buffered main status is an event parameter (ERecvMain t); the real channel mechanics are exercised by the M runs under testing/synctest, all schedules of up to 3 (thorough: 5) callers enumerated",
+        "Merge: in the transition system the delivery of a batch result to its members is one step EComplete; Model/Delivery.v models the real hand-over (close of the buffered-1 status channel / len(items)-1 blocking sends, one receive per waiter, late receivers after the swap) and C14_delivery_refines_complete proves that every maximal channel-level run has exactly the effect of EComplete; what is NOT proved is the full simulation of the interleaved system (channel steps of one batch interleaved with lock regions of the next batch): it rests on the old status channel being unreachable from the Merge object after the swap; the real channel mechanics are exercised by the M runs under testing/synctest, all schedules of up to 3 (thorough: 5) callers enumerated",
         "one referrers tag = one copy of the transition system; different tags touch disjoint Pool keys, Merge objects and registry tags (theorem C14_tags_independent is about the product); index manifests of different tags are distinct objects",
         "registry: a failed HTTP exchange has no effect; DELETE of a manifest by digest also drops tags pointing at it; index manifests are content-addressed (modelled by list equality)",
         "Go runtime scheduling / memory model, sync.Mutex, channels, sync/atomic CompareAndSwap, encoding/json and net/http are modelled, not verified; interleavings of the visible events (lock regions, HTTP exchanges) are quantified over",
